@@ -34,7 +34,7 @@ ASSUMPTIONS = [
     "the loaded-table set at each edit is a legitimate input and is held equal in the reference replica",
     "optional native dependencies present in /venv are used as installed; their presence is not varied here",
 ]
-EXPECTED_PROBES = ["xml.before_after_save_compared", "xml.dump_vs_reference_compared", "hashsweep.runs_compared", "order.pairs", "pipe.ok", "pipe.build", "pipe.merge", "pipe.instance", "pipe.fea", "pipe.subset", "pipe.ttx", "save.checked", "op.savexml", "op.failsave.compile", "op.failsave.dest", "lazy.True", "lazy.None", "lazy.False", "edit.reorder", "edit.subset", "edit.scale", "edit.instantiate"]
+EXPECTED_PROBES = ["xml.before_after_save_compared", "xml.dump_vs_reference_compared", "hashsweep.runs_compared", "order.pairs", "pipe.ok", "pipe.build", "pipe.merge", "pipe.instance", "pipe.fea", "pipe.feagen", "pipe.subset", "pipe.ttx", "save.checked", "op.savexml", "op.failsave.compile", "op.failsave.dest", "lazy.True", "lazy.None", "lazy.False", "edit.reorder", "edit.subset", "edit.scale", "edit.instantiate"]
 
 TIERS = {
     "quick": {"budget_s": 170, "determinism_sample": 16, "n": {"hist": 2700, "hist_fail": 1000, "hist_ensure": 700, "second_save": 900, "clock": 400, "pipe": 500, "order": 40, "hashsweep": 16}, "minimise_s": 60, "max_minimise": 3},
@@ -622,18 +622,23 @@ def _dump_stable(font, tags):
 
 
 _INDEX_ATTR = None
+_EBLC_RANGE = None
 
 
 def _unordered(xml):
-    """Compiling may sort records into their canonical order in place (name records, COLR base glyph
-    records after a glyph reorder...): the before/after comparison is therefore made on the multiset
-    of dump lines with positional index attributes removed — content, not order."""
-    global _INDEX_ATTR
+    """Compiling may sort records into their canonical order in place (name records after an edit):
+    the before/after comparison is therefore made on the multiset of dump lines with positional index
+    attributes removed — content, not order. The firstGlyphIndex/lastGlyphIndex attributes of EBLC/CBLC
+    index subtables are recalculated data like the head bbox (the dump itself says so: "The
+    firstGlyphIndex and lastGlyphIndex values will be recalculated by the compiler"), stale after a
+    subset until the next compile: they are masked, the glyph lists they are derived from are not."""
+    global _INDEX_ATTR, _EBLC_RANGE
     if _INDEX_ATTR is None:
         import re
 
         _INDEX_ATTR = re.compile(r' index="\d+"')
-    return sorted(_INDEX_ATTR.sub("", ln.strip()) for ln in xml.splitlines() if ln.strip())
+        _EBLC_RANGE = re.compile(r'(<eblc_index_sub_table_\d+ .*?) firstGlyphIndex="\d+" lastGlyphIndex="\d+"')
+    return sorted(_EBLC_RANGE.sub(r"\1", _INDEX_ATTR.sub("", ln.strip())) for ln in xml.splitlines() if ln.strip())
 
 
 def _dump_all(font):
